@@ -17,29 +17,29 @@ import (
 // Scenario is one self-contained run against a fresh database file: it fully determines the
 // execution (it is also the replay artefact written on a violation).
 type Scenario struct {
-	Name    string  `json:"name"`
-	Kind    string  `json:"kind"` // random | program | concurrent | cursor | ...
-	Seed    int64   `json:"seed"`
-	Opts    Opts    `json:"opts"`
-	Profile string  `json:"profile"`
-	Gen     *GenCfg `json:"gen,omitempty"`
-	Program []Step  `json:"program,omitempty"`
-	Observe bool    `json:"observe"` // page-level observations (Decoded / Stats / Check)
+	Name    string         `json:"name"`
+	Kind    string         `json:"kind"` // random | program | concurrent | cursor | ...
+	Seed    int64          `json:"seed"`
+	Opts    Opts           `json:"opts"`
+	Profile string         `json:"profile"`
+	Gen     *GenCfg        `json:"gen,omitempty"`
+	Program []Step         `json:"program,omitempty"`
+	Observe bool           `json:"observe"` // page-level observations (Decoded / Stats / Check)
 	Params  map[string]int `json:"params,omitempty"`
 }
 
 // ScenarioResult is what the child reports for one scenario.
 type ScenarioResult struct {
-	Name      string         `json:"name"`
-	KVFrom    int            `json:"kvFrom"` // first line (1-based) of this scenario in the batch's kv trace
-	KVTo      int            `json:"kvTo"`
-	BoltFrom  int            `json:"boltFrom"`
-	BoltTo    int            `json:"boltTo"`
-	Panic     string         `json:"panic,omitempty"`
-	Hang      string         `json:"hang,omitempty"`
-	Failures  []string       `json:"failures,omitempty"` // harness-side hard failures (e.g. EndBadResult)
-	Counters  map[string]int `json:"counters,omitempty"`
-	Sample    []Ev           `json:"sample,omitempty"`
+	Name     string         `json:"name"`
+	KVFrom   int            `json:"kvFrom"` // first line (1-based) of this scenario in the batch's kv trace
+	KVTo     int            `json:"kvTo"`
+	BoltFrom int            `json:"boltFrom"`
+	BoltTo   int            `json:"boltTo"`
+	Panic    string         `json:"panic,omitempty"`
+	Hang     string         `json:"hang,omitempty"`
+	Failures []string       `json:"failures,omitempty"` // harness-side hard failures (e.g. EndBadResult)
+	Counters map[string]int `json:"counters,omitempty"`
+	Sample   []Ev           `json:"sample,omitempty"`
 }
 
 // Job is the unit of work of one child process.
@@ -50,10 +50,10 @@ type Job struct {
 }
 
 type JobResult struct {
-	Tag     string           `json:"tag"`
-	Results []ScenarioResult `json:"results"`
-	KVFile  string           `json:"kvFile"`
-	BoltFile string          `json:"boltFile"`
+	Tag      string           `json:"tag"`
+	Results  []ScenarioResult `json:"results"`
+	KVFile   string           `json:"kvFile"`
+	BoltFile string           `json:"boltFile"`
 }
 
 // ScenarioRunner executes one scenario kind inside the child. Registered by the property files.
@@ -246,13 +246,13 @@ type Finding struct {
 
 // BatchOutcome aggregates what a set of scenarios covered.
 type BatchOutcome struct {
-	Findings   []Finding
-	Infra      []string // infrastructure failures (exit 2)
-	Counters   map[string]int
-	Traces     int   // traces (scenarios) validated against the implementation
-	Events     int64 // trace lines validated
-	TLCStates  int64
-	Samples    []any
+	Findings    []Finding
+	Infra       []string // infrastructure failures (exit 2)
+	Counters    map[string]int
+	Traces      int   // traces (scenarios) validated against the implementation
+	Events      int64 // trace lines validated
+	TLCStates   int64
+	Samples     []any
 	PerScenario map[string]map[string]int
 }
 
